@@ -14,19 +14,11 @@ import Ufw.Tie.RegTable
 #print axioms Ufw.Props.C05.block_write_preserves_sat
 #print axioms Ufw.Props.C05.block_write_refused_unchanged
 #print axioms Ufw.Props.C05.block_write_keeps_layout
-#print axioms Ufw.Props.C05.inv_set
 #print axioms Ufw.Props.C05.history_with_block_writes
-#print axioms Ufw.Props.C05.set_keeps_sat_at
-#print axioms Ufw.Props.C05.untouch_get
-#print axioms Ufw.Props.C05.untouch_register_get
-#print axioms Ufw.Props.C05.untouch_sat
-#print axioms Ufw.Props.C05.untouch_struct
-#print axioms Ufw.Props.C05.set_struct
-#print axioms Ufw.Props.C05.get_code_success
-#print axioms Ufw.Props.C05.sane_sat
-#print axioms Ufw.Props.C05.untouch_entries_length
-#print axioms Ufw.Props.C05.untouch_untouched
-#print axioms Ufw.Props.C05.sanitise_go
 #print axioms Ufw.Props.C05.sanitise_restores
+#print axioms Ufw.Props.C05.sanitise_succeeds
+#print axioms Ufw.Props.C05.sanitise_values
+#print axioms Ufw.Props.C05.history_preserves_constraints
+#print axioms Ufw.Props.C05.goodTable_good
 #print axioms Ufw.Tie.RegTable.const_rds_size
 #print axioms Ufw.Tie.RegTable.const_enums
